@@ -510,7 +510,9 @@ class BGP(protocol.Protocol):
         :return:
         """
 
-        self.msg_recv_stat['Opens'] += 1
+        if bgp_cons.HDR_LEN + len(msg) >= bgp_cons.BGP_MIN_OPEN_MSG_SIZE:
+            # shorter than an OPEN can be: answered with a header error below
+            self.msg_recv_stat['Opens'] += 1
         open_msg = Open()
         parse_result = open_msg.parse(msg)
         if self.fsm.bgp_peering.peer_asn != open_msg.asn:
